@@ -8,6 +8,7 @@ import hashlib, itertools, os
 
 CAPS_QUICK = [1, 2, 3, 4, 7]
 CAPS_THOROUGH = [1, 2, 3, 4, 5, 7, 8, 16, 31]
+GROUP_STEPS = int(os.environ.get("VERIF_C30_GROUP_STEPS", "200000"))     # memory accesses per group of cases (8 harness processes per group)
 
 
 def ops_of(bits, start=1):
@@ -98,6 +99,11 @@ class C30(Standard):
         return CAPS_THOROUGH if ctx.thorough else CAPS_QUICK
 
     def prepare(self, ctx, cases):
+        """one compiled harness (all capacities are registry entries of one TU); the cases are handed to
+        the runner in groups of bounded size so that no harness process comes near the runner's
+        per-process time limit. All groups share the binary: it is compiled here once and entered into
+        the runner's harness cache under every group key."""
+        from vlib.core import compile_harness
         cfgs = sorted(set(c.cfg[0] for c in cases if c.cfg), key=lambda x: (len(x), x))
         cfgs = [c for c in cfgs if c.isdigit() and 0 < int(c) <= 4096] or ["1"]
         key = "ring_" + hashlib.sha1(";".join(cfgs).encode()).hexdigest()[:10]
@@ -105,7 +111,26 @@ class C30(Standard):
         os.makedirs(d, exist_ok=True)
         with open(os.path.join(d, "ring_configs.inc"), "w") as f:
             f.write("".join("CFG(%s)\n" % c for c in cfgs))
-        return [(key, ["-I" + d], cases)]
+        extra = ["-I" + d]
+        groups, cur, steps = [], [], 0
+        for c in cases:
+            cur.append(c)
+            steps += len(c.ops) + 1
+            if steps >= GROUP_STEPS:
+                groups.append(cur)
+                cur, steps = [], 0
+        if cur or not groups:
+            groups.append(cur)
+        if len(groups) == 1:
+            return [(key, extra, groups[0])]
+        cache = ctx.__dict__.setdefault("hcache", {})
+        if key not in cache:
+            cache[key] = compile_harness(ctx, self.harness, key, extra=extra)
+        out = []
+        for i, g in enumerate(groups):
+            cache["%s#%d" % (key, i)] = cache[key]
+            out.append(("%s#%d" % (key, i), extra, g))
+        return out
 
     def generate(self, ctx):
         rng = ctx.rng
